@@ -308,6 +308,12 @@ Lemma gen_model_keys_exact :
   /\ covers (keys3 class_attrs) model_keys = true.
 Proof. repeat split; vm_compute; reflexivity. Qed.
 (** the only process-global DSL state outside the classes: the two null objects *)
+(** the null objects are only ever read to START an accumulation or as an operand of + / -: none is handed out *)
+Definition use_ok (u : string * string * string * string) : bool :=
+  let k := snd u in String.eqb k "accumulator" || String.eqb k "operand".
+Lemma gen_null_objects_do_not_escape : forallb use_ok module_object_uses = true.
+Proof. vm_compute. reflexivity. Qed.
+
 Lemma gen_residual : map (fun t => snd (fst t)) module_objects = ["null_expression"; "null_point"]
                      /\ module_object_writes = [].
 Proof. split; reflexivity. Qed.
